@@ -11,10 +11,11 @@ with numpy:
 
 Don't-care zone (DESIGN.md C19): Java's tables are the binary doubles, C's went through '%.10E' (5e-11 relative), so a continuous
 argument within 1e-9 of a table end / edge may legitimately take the other branch on one side only.  Every disagreeing tuple is
-therefore re-run on both sides with each double argument x moved to x(1+1e-8) and x(1-1e-8); if for some argument the two sides
-agree (same primary tolerance) at BOTH neighbours, the disagreement is confined to an interval narrower than 2e-8 between two
-points of agreement: the tuple sits on a decision boundary (each side shows both behaviours within the neighbourhood) and is
-counted in boundary_tuples instead of being reported.  A systematic difference (dropped term, shifted range check on an integer
+therefore re-run on both sides with each double argument x moved to x(1+1e-8) and x(1-1e-8).  An error/no-error disagreement
+is a boundary tuple if for some argument both sides report an error at one neighbour and both return a value at the other (each
+side shows both behaviours within the neighbourhood); a value disagreement is a boundary tuple if for some argument the two
+sides agree (same primary tolerance) at BOTH neighbours, i.e. the disagreement is confined to an interval narrower than 2e-8
+between two points of agreement.  Boundary tuples are counted in boundary_tuples instead of being reported.  A systematic difference (dropped term, shifted range check on an integer
 argument, wrong constant) disagrees at the neighbours too and is never classified as boundary; arguments 0 and +-DBL_MAX have
 no neighbourhood and are always reported.  Everything else is re-checked by a
 single-call replay on both sides (fresh request of one tuple) and reported.
@@ -115,6 +116,9 @@ def aux_plans(B, cfg, level, seed):
         ZZ.append(np.full(len(e), Z)); EE.append(e)
     ZZ, EE = np.concatenate(ZZ), np.concatenate(EE)
     out = []
+    for name, sig in xrl.EXTRA_DECL:                      # internal in C (declared by the harness), public static in Java
+        if sig == "d(iie)":
+            out.append(c03.Plan(name, "fn", sig, domains.product(Zs, np.arange(-3, 35))))
     for name, sig in xrl.aux_protos():
         a = sig[2:-1]
         if not (a.startswith("id") and a.endswith("e") and set(a[2:-1]) <= {"d"}):
@@ -186,6 +190,11 @@ def string_plans(X, level):
     for fn in ("Refractive_Index", "Refractive_Index_Re", "Refractive_Index_Im"):
         if fn in P:
             out.append(c03.Plan(fn, "fn", P[fn], [cs, ee, dd]))
+    if "Refractive_Index" in P:          # not part of the C03 plans (xrlComplex return): same product as Refractive_Index_Re
+        strs = domains.strings(level)
+        Egen = np.array(sorted(set(domains.SPECIAL_E) | {8.05, 17.48, 59.5, 0.5, 800.0, 900.0, 1001.0})) if level > 0 else np.array([-1.0, 0.0, 1e-3, 1.0, 8.05, 59.5, 1e3, 1e6])
+        si, ee, dd = domains.product(np.arange(len(strs)), Egen, domains.DENSITY)
+        out.append(c03.Plan("Refractive_Index", "fn", P["Refractive_Index"], [[strs[i] for i in si], ee, dd]))
     for p in out:
         p.extra = True
     return out
@@ -412,10 +421,19 @@ def compare_plan(ctx, lock, S, p, stats):
             # boundary: for some double argument the two sides agree (primary tolerance) at BOTH neighbours x(1+1e-8) and x(1-1e-8),
             # i.e. the disagreement is confined to an interval narrower than 2e-8 (relative) between two points of agreement
             isb = np.zeros(m, dtype=bool)
+            e0c = (nrc[0]["flags"] & F_ERR) != 0; e0j = (nrj[0]["flags"] & F_ERR) != 0
+            errmis = e0c != e0j
             for k in range((V - 1) // 2):
                 up, dn = 1 + 2 * k, 2 + 2 * k
-                moved = (q.cols[dcols[k]][up * m:(up + 1) * m] != q.cols[dcols[k]][:m]) & (q.cols[dcols[k]][dn * m:(dn + 1) * m] != q.cols[dcols[k]][:m])
-                isb |= close(nrc[up], nrj[up], at) & close(nrc[dn], nrj[dn], at) & moved
+                x0 = q.cols[dcols[k]][:m]
+                moved = (q.cols[dcols[k]][up * m:(up + 1) * m] != x0) & (q.cols[dcols[k]][dn * m:(dn + 1) * m] != x0)
+                # value disagreement: both neighbours agree in value
+                isb |= ~errmis & close(nrc[up], nrj[up], at) & close(nrc[dn], nrj[dn], at) & moved
+                # error/no-error disagreement: the two sides agree on error/no-error at both neighbours and that state changes
+                # between them (each side shows both behaviours); values at the neighbours are judged by their own tuples
+                euc = (nrc[up]["flags"] & F_ERR) != 0; euj = (nrj[up]["flags"] & F_ERR) != 0
+                edc = (nrc[dn]["flags"] & F_ERR) != 0; edj = (nrj[dn]["flags"] & F_ERR) != 0
+                isb |= errmis & (euc == euj) & (edc == edj) & (euc != edc) & moved
             isb &= still
             boundary = int(isb.sum())
             for t in np.nonzero(~isb)[0]:
@@ -527,7 +545,7 @@ def run(ctx, B, level):
     cap = QUICK_CAP if ctx.tier == "quick" else THOROUGH_CAP
     lock = threading.Lock()
     stats = dict(boundary=0, tuples=0, disagreements=0, unconfirmed=0, unanalysed=0)
-    compared, nocp_all, jonly = set(), {}, set()
+    compared, nocp_all, jonly, jm_all = set(), {}, set(), set()
     for cfg in (os.environ.get("C19_CFG", "A,K").split(",")):
         if ctx.expired():
             break
@@ -539,6 +557,7 @@ def run(ctx, B, level):
         plans = [p for p in plans if not (p.kind == "op" and p.op in ("Refractive_Index2", "SF2", "SFP2") and False)]
         plans += string_plans(sides[0].X, level)
         jm = sides[0].J.methods()
+        jm_all |= set(jm)
         comp, nocp = classify(plans, jm)
         nocp_all.update(nocp)
         # C API that is exercised by other checks only (no value-returning plan) and has no Java method either
@@ -589,6 +608,11 @@ def run(ctx, B, level):
     ctx.cov["programs"] = len(compared)
     ctx.cov.setdefault("disagreements_checked", 0)
     ctx.notes["methods_compared"] = sorted(compared)
+    # C prototypes of the public headers that are not value-returning queries (life-cycle, error objects, memory, crystal arrays)
+    # and have no static Java method of the same name either
+    for pr in protos.protos():
+        if pr["name"] not in compared and pr["name"] not in jm_all and pr["name"] not in nocp_all:
+            nocp_all[pr["name"]] = "no Java method of this name (C prototype %s, not a value-returning query)" % pr["sig"]
     ctx.notes["no_counterpart"] = sorted(nocp_all)
     ctx.notes["no_counterpart_why"] = nocp_all
     ctx.notes["java_only"] = sorted(jonly)
